@@ -35,7 +35,7 @@ DEFAULT_OPTS = {"flat": True, "merge": [["percent", 0.7], ["number", 10]], "max_
                 "post_init_converters": False, "meta": False}
 
 
-def shrink(case, still_fails, budget=400):
+def shrink(case, still_fails, budget=4000):
     """case: dict with 'models' [[name, samples]] and 'opts'.  still_fails(case) -> bool"""
     best = copy.deepcopy(case)
     steps = 0
